@@ -47,13 +47,48 @@ def _conc(prop, family, tier, seed, props, mode="th", level="model_checking"):
     inst_kw = conccheck.OBJ_INST if family == "C07" else conccheck.META_INST
     viol, r, n_out, n_states = conccheck.judge(results, inst_kw)
     conccheck.report(v, results, viol, props, r, n_out, n_states)
-    v.coverage["checker_cmd"] = "harness.conc explorer (real code, all interleavings) ; tlc TraceLin"
+    if family == "C07":
+        _stepcheck(v, tier, seed, mode)
+    v.coverage["checker_cmd"] = ("harness.conc explorer (real code, all interleavings) ; tlc TraceLin ; "
+                                 "tlc impl/MCImpl (implementation-shaped model) ; tlc impl/TraceSteps")
     v.assumptions += [
         "scheduling points: every operation on a shared path class and every lock/condition operation; "
         "operations on a thread's own tmp file and runs of directory stat/mkdir do not yield",
         "2 threads exhaustive per scenario (state-cached DFS); 3 threads preemption bound 2 (thorough)",
         "CPython GIL: an un-yielded stretch of a managed thread is atomic w.r.t. other managed threads"]
     return v
+
+
+def _stepcheck(v, tier, seed, mode="th"):
+    """Implementation-shaped model: TLC model-checks spec/impl/FileHashStore.tla for the
+    scenarios (exhaustively, 3-thread ones included) and validates recorded executions of the
+    real code against it step by step.  Rejected traces are drift, not alarms."""
+    from . import conccheck, stepcheck
+    scs = conccheck.scenarios("C07", tier, mode)
+    if tier == "quick":
+        keep = {"|".join(conccheck.cstr(c) for c in calls) for _, calls in conccheck.OBJ_QUICK}
+        scs = [s_ for s_ in scs if s_.name.split("/", 2)[2] in keep and len(s_.threads) == 2] + \
+              [s_ for s_ in scs if len(s_.threads) == 3 and "tag:p1:a|tag:p1:b|tag:p2:b" in s_.name]
+    res = stepcheck.run(scs, nruns=4 if tier == "quick" else 12, seed=seed)
+    runs = sum(r_["runs"] for r_ in res)
+    acc = sum(r_["accepted"] for r_ in res)
+    v.drift += runs - acc
+    bad_mc = [(r_["scenario"], r_["mc"]["violated"]) for r_ in res if r_["mc"] and not r_["mc"]["ok"]]
+    v.coverage["impl_model"] = {
+        "scenarios_model_checked": sum(1 for r_ in res if r_["mc"]),
+        "model_states": sum(r_["mc"]["distinct"] for r_ in res if r_["mc"]),
+        "model_transitions": sum(r_["mc"]["generated"] for r_ in res if r_["mc"]),
+        "model_violations": bad_mc,
+        "recorded_executions_validated": runs, "accepted_by_model": acc,
+        "events_matched": sum(r_.get("events", 0) for r_ in res),
+        "rejected_samples": [dict(scenario=r_["scenario"], **r_["stuck"][0]) for r_ in res if r_["stuck"]][:5],
+        "tlc_errors": [r_["scenario"] for r_ in res if r_.get("error")][:5]}
+    v.coverage["traces_validated_against_impl"] = v.coverage.get("traces_validated_against_impl", 0) + acc
+    v.coverage["states"] = v.coverage.get("states", 0) + v.coverage["impl_model"]["model_states"]
+    if bad_mc:
+        v.notes.append({"implementation_shaped_model_counterexamples": bad_mc[:5],
+                        "meaning": "a behaviour of the MODEL violates an invariant; it is a candidate only "
+                                   "- the real-code exploration above decides"})
 
 
 def check_C07(tier, seed):
